@@ -9,8 +9,9 @@ CHECKS = {
           "cache invariant (every cached chunk equals its piece of the resource; at most keep_chunks chunks). Loops are cut by "
           "inductive invariants, so any number of chunks and any history of operations is covered.",
   "note": "Trusted: the server contract of download_range (a valid Range returns that piece), Python ints as mathematical "
-          "integers, bytes modelled as slices of one ghost sequence, dict order model, z3/cvc5 and the pyvc engine. Not decided: "
-          "read(size<=0), reads past the end of the resource, the 'dataset over HTTP equals local dataset' corollary (follows from "
+          "integers, bytes modelled as slices of one ghost sequence, dict order model, z3/cvc5 and the pyvc engine. read() at and beyond the end "
+          "of the resource, read(0) and read(size<0) are decided since the repairs 644e67e / 5ac393a. Not decided: the 'dataset over HTTP "
+          "equals local dataset' corollary (follows from "
           "byte-exact reads plus determinism of h5py, assumed).",
   "technique": "contract-based deductive verification: AST-generated VCs with loop invariants and callee contracts, discharged by z3 (cvc5 fallback)"},
 }
